@@ -38,7 +38,6 @@ def calc_slope_temporalps(slope_data):
     tps = abs(numpy.fft.fft(slope_data, axis=-2)[..., :int(n_frames/2), :])**2
 
     # Find mean across all sub-aps
-    tps = (abs(tps)**2)
     mean_tps = tps.mean(-1)
     tps_err = tps.std(-1)/numpy.sqrt(tps.shape[-1])
 
